@@ -1,5 +1,5 @@
 (** C01 — the compiled seccomp filter implements the declared policy exactly. *)
-From GS Require Import Base.Str Seccomp.Check Seccomp.CheckProofs Seccomp.Asm Seccomp.PolicyProofs.
+From GS Require Import Base.Str Seccomp.Check Seccomp.CheckProofs Seccomp.Asm Seccomp.PolicyProofs Seccomp.BuildProofs.
 Open Scope N_scope.
 
 (** A filter accepted by the validator answers the policy's verdict for every
@@ -10,6 +10,22 @@ Theorem C01_filter_sound : forall p pol, check_filter p pol = true ->
   forall d, run p d = Some (verdict pol (sd_arch d) (sd_nr d)).
 Proof. exact filter_sound. Qed.
 Print Assumptions C01_filter_sound.
+
+(** Builder.Build (group construction, Program.Assemble, prologue, export) is correct once and for all
+    for every policy whose allow and trace lists hold at most 256 numbers each: it produces a filter,
+    and the filter answers the policy's verdict on every seccomp_data.  Longer lists make Assemble
+    insert early returns; those filters are only covered per built filter, by C01_filter_sound. *)
+Theorem C01_build_correct_upto_256 : forall tbl b pol, policy_of tbl b = Some pol ->
+  (length (p_allow pol) <= 256)%nat -> (length (p_trace pol) <= 256)%nat ->
+  exists f, build tbl b = Some f /\ forall d, run f d = Some (verdict pol (sd_arch d) (sd_nr d)).
+Proof. exact build_correct. Qed.
+Print Assumptions C01_build_correct_upto_256.
+
+(** the instructions Program.Assemble yields for such a policy, in closed form *)
+Theorem C01_assemble_closed_form : forall allow trace d, (length allow <= 256)%nat -> (length trace <= 256)%nat ->
+  assemble_prog (src_prog allow trace d) = Some (gcode allow RET_ALLOW ++ gcode trace RET_TRACE ++ [PRet d]).
+Proof. exact assemble_short. Qed.
+Print Assumptions C01_assemble_closed_form.
 
 (** what the verdict says, spelled out *)
 Theorem C01_native_verdict : forall pol nr, nr < X32_SYSCALL_BIT ->
